@@ -1,2 +1,33 @@
-(* props/C08.v — placeholder until the theorems of this property are added. *)
-From Prophy Require Import Bytes Schema Layout Wire PcModel.
+(* props/C08.v — the raw C++ struct layout coincides with the wire layout (model level).
+   What is proved: the member offsets that follow from prophyc's member sizes and the paddings
+   evaluate_struct_size assigns — which is all the raw generator (generators/cpp.py
+   translate_struct over model.partition) uses to lay a struct out: members in order, a manual
+   padding member for every positive padding, a new PROPHY_STRUCT part after every member
+   partition splits at, an optional as flag + padding up to the value's alignment + value —
+   are exactly the offsets docs/encoding.rst assigns (spec member_offsets), for every legal
+   struct, and the byte size / alignment prophyc publishes are the wire size / alignment.
+   What is checked, not proved: that the C++ compiler lays the emitted packed declarations out
+   as [pc_raw_offsets] says (checks/C08.py compiles the header and compares offsetof/sizeof
+   with both the spec and this model on every generated schema). *)
+From Coq Require Import ZArith List Bool Lia.
+From Prophy Require Import Bytes Schema Layout Wire Src PcModel Arith Views PcFacts PcRawFacts.
+Import ListNotations.
+Local Open Scope Z_scope.
+
+Theorem C08_raw_member_offsets :
+  forall fs, legal (TStruct fs) = true -> pc_raw_layout fs = member_offsets fs 0 0.
+Proof. exact pc_raw_layout_eq. Qed.
+Print Assumptions C08_raw_member_offsets.
+
+Theorem C08_sizeof :
+  forall t, legal t = true -> pc_size t = size t /\ pc_align t = align t.
+Proof. intros t Hl. destruct (pc_layout_eq t Hl) as [Ha Hs]. split; assumption. Qed.
+Print Assumptions C08_sizeof.
+
+(* non-vacuity: a struct with an optional u64 after a u8, a dynamic array and a second part *)
+Example C08_example :
+  let fs := [(FPlain, TScalar U8); (FOpt, TScalar U64); (FPlain, TScalar U32); (FBound 2%nat, TScalar U16);
+             (FPlain, TScalar U8); (FPlain, TScalar U64)] in
+  legal (TStruct fs) = true /\
+  pc_raw_layout fs = [(0, 0, -1); (0, 8, 16); (0, 24, -1); (0, 28, -1); (1, 0, -1); (1, 8, -1)].
+Proof. vm_compute. split; reflexivity. Qed.
